@@ -36,9 +36,12 @@ API
 `write_files(spec, directory)` -> list[str]   writes the TIFF file(s) (one page per `TiffWriter.write`, DateTime tag 306
     = "start:stop", ImageDescription JSON, Software tag, Orientation tag) and returns the paths in stack order.
 `open_stack(paths, align=True)` -> lumicks.pylake.ImageStack
-`TiffStacks()`   context manager / cache: `.get(spec)` -> (ImageStack, full_array, page_table); one temporary
-    directory for the whole run, files are written once per distinct spec and closed/removed by `.close()`
-    (or on leaving the `with` block).  `.paths(spec)` gives the file names (for export/reopen checks).
+`TiffStacks(max_open=48)`   context manager / LRU cache: `.get(spec)` -> (ImageStack, full_array, page_table); one
+    temporary directory for the whole run; at most `max_open` stacks stay written + open (the least recently used
+    one is closed and its files removed: objects derived from an evicted stack can no longer read pixels, so use the
+    result of `.get` before asking for many other specs); everything is closed/removed by `.close()` (or on
+    leaving the `with` block).  `.paths(spec)` gives the file names (for export/reopen checks), `.drop(spec)`
+    evicts one entry.
 `decode(spec, image)`   inverse of the pixel encoding for an image returned by pylake: returns
     (pages, rows, cols) index lists if the image is exactly full_array[pages][:, rows][:, :, cols], else None.
 """
@@ -209,10 +212,11 @@ def open_stack(paths, align=True):
 class TiffStacks:
     """cache of written + opened stacks, keyed by the canonical JSON of the spec"""
 
-    def __init__(self):
+    def __init__(self, max_open=48):
         self._dir = tempfile.mkdtemp(prefix="verif_tiff_")
-        self._cache = {}
+        self._cache = {}  # insertion/use ordered: least recently used first
         self._count = 0
+        self._max_open = max_open
 
     def __enter__(self):
         return self
@@ -222,13 +226,27 @@ class TiffStacks:
 
     def _entry(self, spec):
         key = json.dumps(spec, sort_keys=True)
-        if key not in self._cache:
-            d = os.path.join(self._dir, f"s{self._count}")
-            self._count += 1
-            os.makedirs(d)
-            paths = write_files(spec, d)
-            self._cache[key] = (open_stack(paths), full_array(spec), page_table(spec), paths)
+        if key in self._cache:
+            self._cache[key] = self._cache.pop(key)  # mark as most recently used
+            return self._cache[key]
+        while len(self._cache) >= self._max_open:  # bound the number of open file handles
+            old = next(iter(self._cache))
+            self._evict(old)
+        d = os.path.join(self._dir, f"s{self._count}")
+        self._count += 1
+        os.makedirs(d)
+        paths = write_files(spec, d)
+        self._cache[key] = (open_stack(paths), full_array(spec), page_table(spec), paths)
         return self._cache[key]
+
+    def _evict(self, key):
+        e = self._cache.pop(key, None)
+        if e is not None:
+            try:
+                e[0].close()
+            except Exception:
+                pass
+            shutil.rmtree(os.path.dirname(e[3][0]), ignore_errors=True)
 
     def get(self, spec):
         return self._entry(spec)[:3]
@@ -237,11 +255,7 @@ class TiffStacks:
         return self._entry(spec)[3]
 
     def drop(self, spec):
-        key = json.dumps(spec, sort_keys=True)
-        e = self._cache.pop(key, None)
-        if e is not None:
-            e[0].close()
-            shutil.rmtree(os.path.dirname(e[3][0]), ignore_errors=True)
+        self._evict(json.dumps(spec, sort_keys=True))
 
     def close(self):
         for e in self._cache.values():
